@@ -10,13 +10,13 @@ from . import c01
 ID = "C08"
 LEVEL = "exploration"
 RULE = ("(a) exhaustive: all multisets of <= 3 types from a finite universe of depth-<=2 IR types, in two pipeline-faithful modes "
-        "plus mode 0 (all multisets of <= 2 types of a 55-type universe that also holds non-normal inputs such as "
+        "plus mode 0 (all multisets of <= 2 types of a 61-type universe that also holds non-normal inputs such as "
         "Optional[Optional[int]], handed to the public optimize_type() directly, two passes as merge_models does): "
         "mode 1 (36 types without Optional) through merge_field_sets + optimize_type as generate() does, with and without a "
         "variant lacking the field; mode 2 (33 normal-form types incl. Optional-wrapped ones and nested models) as the single "
         "field of three root models that merge_models() merges. Oracle: normal-form predicate on every field type of every "
         "registered model, and a further optimize_type pass over all models raises nothing and leaves the "
-        "canonical form (types as sets) of the graph unchanged. (b) Hypothesis: final registries of C01's generator, same oracle (phase 'graphs'), and the result of generate() "
+        "canonical form (types as sets) of the graph unchanged, and neither does the re-run through a pointer (optimize_type(ptr, process_model_ptr=True)). (b) Hypothesis: final registries of C01's generator, same oracle (phase 'graphs'), and the result of generate() "
         "alone - one pass, no merge_models - incl. a registry into which the date/time classes are registered after its first "
         "use (phase 'generate-only'), plus the "
         "render-independent normal-form clauses on the AST of every emitted annotation. Non-trivial: (a) >= 2 members "
